@@ -19,7 +19,8 @@ def obligations(tier):
     o = []
     kinds = [('USER_DATA', ['NFIX=11']), ('USER_DATA', ['NFIX=0']), ('ANNOTATION', ['NFIX=7']), ('UTC', []), ('FSR', [])]
     if tier == 'thorough':
-        kinds += [('SIGNAL', []), ('SOURCE', []), ('USER_DATA', ['NFIX=24']), ('ANNOTATION', ['NFIX=0']), ('ANNOTATION', ['NFIX=12'])]
+        # SIGNAL and SOURCE definition chunks (KIND_SIGNAL / KIND_SOURCE of the harness, symbolic strings through jls_buf_rd_str): no verdict in 3000 s -> not claimed
+        kinds += [('USER_DATA', ['NFIX=24']), ('ANNOTATION', ['NFIX=0']), ('ANNOTATION', ['NFIX=12'])]
     for kind, extra in kinds:
         nm = 'O1_copy_%s%s' % (kind.lower(), ('_len' + extra[0].split('=')[1]) if extra else '')
         o.append(Obl(nm, 'c17_copy.c', units=['copy.c', 'buffer.c'], defines=HOOKS + ['KIND_%s=1' % kind] + extra, unwind=12,
